@@ -214,6 +214,10 @@ func c16RoundTripOne(c *fw.Ctx, r sm.TimeLit) {
 	if got := k.ToStringWithFormat(klog.TimeFormat{Use24HourClock: r.TwelveH}); got != other.String() {
 		c.Violation("time-reformat", cs, fmt.Sprintf("%q in the other notation: got %q, want %q", lit, got, other.String()))
 	}
+	// ... and leaves the value itself (and its own notation) as it was
+	if got := k.ToString(); got != lit || k.Format().Use24HourClock == r.TwelveH {
+		c.Violation("time-reformat-mutates", cs, fmt.Sprintf("after writing %q out in the other notation, the value itself prints as %q (24h=%v)", lit, got, k.Format().Use24HourClock))
+	}
 	// the equivalent spellings of the specification denote the same value, and nothing else does
 	var alts []string
 	h, m := r.Hour(), r.Minute()
@@ -390,6 +394,9 @@ func c16DateString(c *fw.Ctx, s string) {
 		other := sm.DateLit{Date: ref.Date, Slash: !ref.Slash}
 		if got := k.ToStringWithFormat(klog.DateFormat{UseDashes: ref.Slash}); got != other.String() {
 			c.Violation("date-reformat", mk(), fmt.Sprintf("%q in the other notation: %q, want %q", s, got, other.String()))
+		}
+		if k.ToString() != s || k.Format().UseDashes == ref.Slash {
+			c.Violation("date-reformat-mutates", mk(), fmt.Sprintf("after writing %q out in the other notation, the value itself prints as %q", s, k.ToString()))
 		}
 	default:
 		c.Outcome("date-rejected")
